@@ -27,6 +27,7 @@ import (
 	"strings"
 	"time"
 
+	"github.com/golang/geo/s1"
 	"github.com/golang/geo/s2"
 	cg "verifharness/internal/codecgen"
 	"verifharness/internal/vkit"
@@ -39,6 +40,10 @@ func main() {
 	}
 	vkit.Main("C15", []string{"Base.Bytes", "Gen.Codec", "Model.Codec"}, run)
 }
+
+// reusePrev: for receiver-reuse inputs (keyed by their unique label), the encodings decoded into
+// the same receiver before the input itself
+var reusePrev = map[string][][]byte{}
 
 type input struct {
 	Kind  cg.Kind
@@ -55,6 +60,8 @@ type result struct {
 	Sub    string `json:"sub"`  // sub-class of the decoded value, part of the violation kind (after .use.)
 	NV     int64  `json:"nv"`   // Polygon: the decoded numVertices field
 	HasNV  bool   `json:"hasnv"`
+	Sig       string `json:"sig"`       // shape signature (edges, chains) of a decoded loop/polyline/polygon
+	ReuseDiff string `json:"reuseDiff"` // decoding into a used receiver differs from a fresh decode
 	Note   string `json:"note"` // non-fatal finding of the use phase (re-encoding does not decode)
 	Use    string `json:"use"`  // ok | panic
 	UseAt  string `json:"useAt"`
@@ -132,11 +139,18 @@ func tail(s string, n int) string {
 // ask sends one input to a child and waits for its answer under the watchdog. The child is
 // dead (nil) afterwards if it crashed, ran out of memory or was killed by the watchdog.
 func ask(ch *child, inp input, limit time.Duration) (result, *child) {
-	hdr := make([]byte, 5)
-	hdr[0] = byte(inp.Kind)
-	binary.LittleEndian.PutUint32(hdr[1:], uint32(len(inp.Data)))
-	ch.in.Write(hdr)
-	ch.in.Write(inp.Data)
+	block := func(b []byte) {
+		var l [4]byte
+		binary.LittleEndian.PutUint32(l[:], uint32(len(b)))
+		ch.in.Write(l[:])
+		ch.in.Write(b)
+	}
+	prev := reusePrev[inp.Label]
+	ch.in.Write([]byte{byte(inp.Kind), byte(len(prev))})
+	for _, pb := range prev {
+		block(pb)
+	}
+	block(inp.Data)
 	select {
 	case ln, ok := <-ch.lines:
 		if !ok {
@@ -417,9 +431,99 @@ func fieldInputs() []input {
 	return ins
 }
 
+// reuseInputs: a second (and third) encoding decoded into a receiver that already holds a decoded
+// value: all ordered pairs of a pool of shapes per type (many loops -> few loops, long -> short,
+// compressed <-> lossless, full / empty <-> ordinary, an error after a success). The outcome, the
+// decoded fields and the edge / chain structure must be those of a fresh decode.
+func reuseInputs(c *vkit.Collector, rng *vkit.Rng) []input {
+	enc := func(f func(w *bytes.Buffer) error) []byte { b, _ := cg.Enc(f); return b }
+	snapped := func(lat, lng, radius float64, n int) *s2.Loop {
+		reg := s2.RegularLoop(s2.PointFromLatLng(s2.LatLngFromDegrees(lat, lng)), s1.Angle(radius)*s1.Degree, n)
+		vs := make([]s2.Point, n)
+		for i, v := range reg.Vertices() {
+			vs[i] = s2.CellFromPoint(v).ID().Point()
+		}
+		return s2.LoopFromPoints(vs)
+	}
+	polyBytes := func(p *s2.Polygon) []byte { return enc(func(w *bytes.Buffer) error { return p.Encode(w) }) }
+	var many, many20 []*s2.Loop
+	for i := 0; i < 13; i++ {
+		many = append(many, snapped(10, float64(10*i), 1, 4))
+	}
+	for i := 0; i < 20; i++ {
+		many20 = append(many20, s2.RegularLoop(s2.PointFromLatLng(s2.LatLngFromDegrees(-30, float64(12*i))), s1.Angle(1)*s1.Degree, 3+i%4))
+	}
+	tri := s2.LoopFromPoints([]s2.Point{s2.PointFromCoords(1, 0, 0), s2.PointFromCoords(0, 1, 0), s2.PointFromCoords(0, 0, 1)})
+	trunc := func(b []byte) []byte { return b[:len(b)*2/3] }
+	pools := map[cg.Kind][][]byte{}
+	polys := [][]byte{
+		polyBytes(s2.PolygonFromLoops(many)),                                    // 13 loops, compressed
+		polyBytes(s2.PolygonFromLoops(many20)),                                  // 20 loops, lossless
+		polyBytes(s2.PolygonFromLoops([]*s2.Loop{snapped(-20, 40, 2, 10)})),     // one long loop, compressed
+		polyBytes(s2.PolygonFromLoops([]*s2.Loop{snapped(-20, 40, 5, 70)})),     // one loop with an encoded bound
+		polyBytes(s2.PolygonFromLoops([]*s2.Loop{s2.RegularLoop(s2.PointFromCoords(1, 1, 1), 0.2, 9)})), // lossless
+		polyBytes(s2.PolygonFromLoops([]*s2.Loop{snapped(40, -100, 8, 12), snapped(40, -100, 3, 5)})), // shell + hole
+		polyBytes(s2.FullPolygon()), polyBytes(&s2.Polygon{}), polyBytes(s2.PolygonFromLoops([]*s2.Loop{tri})),
+	}
+	polys = append(polys, trunc(polys[0]), trunc(polys[1]), []byte{9, 9})
+	pools[cg.KPolygon] = polys
+	loopB := func(l *s2.Loop) []byte { return enc(func(w *bytes.Buffer) error { return l.Encode(w) }) }
+	loops := [][]byte{loopB(snapped(0, 0, 3, 40)), loopB(tri), loopB(s2.EmptyLoop()), loopB(s2.FullLoop()), loopB(s2.RegularLoop(s2.PointFromCoords(0, 1, 1), 0.5, 7))}
+	pools[cg.KLoop] = append(loops, trunc(loops[0]), []byte{7})
+	pl := func(n int) []byte {
+		p := make(s2.Polyline, n)
+		for i := range p {
+			p[i] = cg.UnitPoint(rng)
+		}
+		return enc(func(w *bytes.Buffer) error { return p.Encode(w) })
+	}
+	pools[cg.KPolyline] = [][]byte{pl(9), pl(2), pl(0), pl(1), trunc(pl(6))}
+	cu := func(n int) []byte {
+		u := make(s2.CellUnion, n)
+		for i := range u {
+			u[i] = cg.CellAt(rng, i%6, 3+i%20, 0)
+		}
+		return enc(func(w *bytes.Buffer) error { return u.Encode(w) })
+	}
+	pools[cg.KCellUnion] = [][]byte{cu(12), cu(1), cu(0), trunc(cu(5))}
+	simple := func(k cg.Kind) [][]byte {
+		var out [][]byte
+		for i := 0; i < 3; i++ {
+			b, _ := encodeKind(rng, k)
+			out = append(out, b)
+		}
+		return append(out, trunc(out[0]))
+	}
+	for _, k := range []cg.Kind{cg.KPoint, cg.KCap, cg.KRect, cg.KCellID, cg.KCell} {
+		pools[k] = simple(k)
+	}
+	var ins []input
+	for k := cg.Kind(0); k < cg.NumKinds; k++ {
+		pool := pools[k]
+		for i, a := range pool {
+			for j, b := range pool {
+				lab := fmt.Sprintf("%s reuse %d->%d", cg.KindNames[k], i, j)
+				reusePrev[lab] = [][]byte{a}
+				ins = append(ins, input{Kind: k, Data: b, Label: lab})
+				c.Class("receiver-reuse")
+			}
+		}
+		// a third decode
+		for t := 0; t < 6 && len(pool) > 2; t++ {
+			a, b, d := pool[rng.Intn(len(pool))], pool[rng.Intn(len(pool))], pool[rng.Intn(len(pool))]
+			lab := fmt.Sprintf("%s reuse twice #%d", cg.KindNames[k], t)
+			reusePrev[lab] = [][]byte{a, b}
+			ins = append(ins, input{Kind: k, Data: d, Label: lab})
+			c.Class("receiver-reuse")
+		}
+	}
+	return ins
+}
+
 func buildInputs(c *vkit.Collector, rng *vkit.Rng, budget int) []input {
 	ins := append(corpusInputs(), regressionInputs()...)
 	ins = append(ins, fieldInputs()...)
+	ins = append(ins, reuseInputs(c, rng)...)
 	c.Extra["corpus_inputs"] = len(ins) - len(regressionInputs())
 	add := func(k cg.Kind, data []byte, label string, big bool) {
 		ins = append(ins, input{k, data, cg.KindNames[k] + " " + label, big})
@@ -568,6 +672,13 @@ func run(c *vkit.Collector, rng *vkit.Rng, budget int) {
 		hexIn := hex.EncodeToString(inp.Data)
 		c.Eval(fmt.Sprintf("%d:%s", inp.Kind, hexIn), r.Out == "ok" || len(inp.Data) > 0)
 		rep := map[string]interface{}{"type": kn, "input_hex": tail(hexIn, 2000), "label": inp.Label, "detail": tail(r.Msg, 300)}
+		if prev := reusePrev[inp.Label]; len(prev) > 0 {
+			var ph []string
+			for _, pb := range prev {
+				ph = append(ph, tail(hex.EncodeToString(pb), 1200))
+			}
+			rep["decoded_before_into_the_same_receiver_hex"] = ph
+		}
 		fn, eq := coqDecode(inp.Kind, inp.Data)
 		bt := cg.InZ(cg.BytesT(inp.Data))
 		switch r.Out {
@@ -577,6 +688,10 @@ func run(c *vkit.Collector, rng *vkit.Rng, budget int) {
 				// the cached vertex count the encoder's format choice relies on
 				c.Check(kn+" numVertices "+inp.Label, vkit.App("Z.eqb", vkit.App("dpolygon_num_vertices", cg.InZ(r.Term)), vkit.Z(r.NV)))
 			}
+			if r.ReuseDiff != "" {
+				rep["detail"] = r.ReuseDiff
+				c.Violate(kn+".Decode.reuse.differs", r.ReuseDiff, rep)
+			}
 			if r.Note != "" {
 				rep["detail"] = r.Note
 				c.Violate(kn+r.Tag+".use.Encode.undecodable", r.Note, rep)
@@ -584,9 +699,17 @@ func run(c *vkit.Collector, rng *vkit.Rng, budget int) {
 			if r.Use != "ok" {
 				rep["query"] = r.UseAt
 				rep["detail"] = tail(r.UseMsg, 300)
-				c.Violate(kn+r.Tag+".use."+r.Sub+r.UseAt, "a decoded value panics when queried: "+tail(r.UseMsg, 120), rep)
+				kind := kn + r.Tag + ".use." + r.Sub + r.UseAt
+				if !strings.HasSuffix(kind, ".panic") {
+					kind += ".panic"
+				}
+				c.Violate(kind, "a decoded value panics when queried: "+tail(r.UseMsg, 120), rep)
 			}
 		case "err":
+			if r.ReuseDiff != "" {
+				rep["detail"] = r.ReuseDiff
+				c.Violate(kn+".Decode.reuse.differs", r.ReuseDiff, rep)
+			}
 			c.Check(kn+" err "+inp.Label, vkit.App("Z.eqb", vkit.App("result_class", vkit.App(fn, bt)), "1%Z"))
 		default:
 			// panic, abort (child died: fatal error / out of memory), hang
